@@ -99,6 +99,17 @@ theorem src_whCreateShardGroup_expected : src_whCreateShardGroup = "{ var versio
 
 theorem src_whReset_expected : src_whReset = "{ wh.preSg = nil wh.preMst = nil wh.sameSchema = false wh.sameSg = false wh.sameMst = false wh.mstPrimaryKeyRowMap = nil wh.pkLength = 0 }" := by rfl
 
+/-! ### the shard mapper's loop (OG.C11.ReadMap) -/
+
+/-- `TargetShards` is called with the source's own measurement and a ShardKeyInfo resolved inside the group loop. -/
+theorem targetShardsArgs_expected : targetShardsArgs = ["mst", "ski", "condition", "aliveShardIdxes"] ∧ skiDeclaredInGroupLoop = true := by decide
+
+theorem src_mapMstShards_expected : src_mapMstShards = "{ sources, shardKeyInfo, measurements, engineTypes, err := csm.getTargetShardMsg(s) if err != nil { return err } if len(measurements) == 0 && s.MstType != influxql.TEMPORARY { return errno.NewError(errno.ErrMeasurementNotFound) } for srcIdx, source := range sources { mst := measurements[srcIdx] var shardInfosByPtID map[uint32][]executor.ShardInfo if shardInfos := csming.ShardMap[source]; shardInfos != nil { shardInfosByPtID = shardInfos } else { shardInfosByPtID = make(map[uint32][]executor.ShardInfo) } groups, err := csm.MetaClient.ShardGroupsByTimeRange(s.Database, s.RetentionPolicy, tmin, tmax) if err != nil { return err } if len(groups) == 0 { if len(shardInfosByPtID) == 0 { csming.ShardMap[source] = nil } return nil } for i, g := range groups { if !engineTypes[g.EngineType] { continue } ski := shardKeyInfo if ski == nil { ski = mst.GetShardKey(groups[i].ID) } aliveShardIdxes := csm.MetaClient.GetAliveShards(s.Database, &groups[i], true) var shs []meta2.ShardInfo if opt.HintType == hybridqp.FullSeriesQuery || opt.HintType == hybridqp.SpecificSeriesQuery { shs, csming.seriesKey = groups[i].TargetShardsHintQuery(mst, ski, condition, opt, aliveShardIdxes) } else { shs = groups[i].TargetShards(mst, ski, condition, aliveShardIdxes) } csm.updateShardInfosByPtID(s, g, shs, &shardInfosByPtID) } csming.ShardMap[source] = shardInfosByPtID } return nil }" := by rfl
+
+theorem src_mapShardsSubQuery_expected : src_mapShardsSubQuery = "subMin, subMax := tmin, tmax valuer := influxql.NowValuer{Now: time.Now(), Location: s.Statement.Location} var subCond influxql.Expr cond, t, err := influxql.ConditionExpr(s.Statement.Condition, &valuer) if err == nil { subCond = cond if t.MinTimeNano() != influxql.MinTime { subMin = t.Min } if t.MaxTimeNano() != influxql.MaxTime { subMax = t.Max } } if err := csm.mapShards(csming, s.Statement.Sources, subMin, subMax, subCond, opt); err != nil { return err } if len(s.Statement.InConditons) > 0 { in := s.Statement.InConditons[0] inTmin := time.Unix(0, in.TimeRange.MinTimeNano()) inTmax := time.Unix(0, in.TimeRange.MaxTimeNano()) inCsming := NewClusterShardMapping(csm, inTmin, inTmax) if err := csm.mapShards(inCsming, in.Stmt.Sources, inTmin, inTmax, in.Stmt.Condition, opt); err != nil { return err } in.Csming = inCsming }" := by rfl
+
+theorem src_getTargetShardMsg_expected : src_getTargetShardMsg = "{ var sources []Source var shardKeyInfo *meta2.ShardKeyInfo var engineTypes [config.ENGINETYPEEND]bool dbi, err := csm.MetaClient.Database(s.Database) if err != nil { return sources, nil, nil, engineTypes, err } if len(dbi.ShardKey.ShardKey) > 0 { shardKeyInfo = &dbi.ShardKey } measurements, err := csm.MetaClient.GetMeasurements(s) if err != nil || len(measurements) == 0 { return sources, nil, nil, engineTypes, err } for _, m := range measurements { sources = append(sources, Source{ Database: s.Database, RetentionPolicy: s.RetentionPolicy, Measurement: m.OriginName(), }) if !engineTypes[m.EngineType] { engineTypes[m.EngineType] = true s.EngineType = m.EngineType s.IndexRelation = &m.IndexRelation s.ObsOptions = m.ObsOptions s.IsTimeSorted = m.IsTimeSorted() } } return sources, shardKeyInfo, measurements, engineTypes, nil }" := by rfl
+
 theorem maxConditionTagGroups_expected : maxConditionTagGroups = 1024 := by rfl
 
 theorem generation_ok : generationFailed = false := by rfl
